@@ -41,11 +41,15 @@ func newBytesDecoder(typ *runtime.Type, structName string, fieldName string) *by
 }
 
 func (d *bytesDecoder) DecodeStream(s *Stream, depth int64, p unsafe.Pointer) error {
+	isNull := s.skipWhiteSpace() == 'n'
 	bytes, err := d.decodeStreamBinary(s, depth, p)
 	if err != nil {
 		return err
 	}
 	if bytes == nil {
+		if isNull {
+			*(*[]byte)(p) = nil // null resets the slice, as for every other slice type
+		}
 		s.reset()
 		return nil
 	}
@@ -61,11 +65,15 @@ func (d *bytesDecoder) DecodeStream(s *Stream, depth int64, p unsafe.Pointer) er
 }
 
 func (d *bytesDecoder) Decode(ctx *RuntimeContext, cursor, depth int64, p unsafe.Pointer) (int64, error) {
+	isNull := ctx.Buf[skipWhiteSpace(ctx.Buf, cursor)] == 'n'
 	bytes, c, err := d.decodeBinary(ctx, cursor, depth, p)
 	if err != nil {
 		return 0, err
 	}
 	if bytes == nil {
+		if isNull {
+			*(*[]byte)(p) = nil // null resets the slice, as for every other slice type
+		}
 		return c, nil
 	}
 	cursor = c
